@@ -195,3 +195,35 @@ Print Assumptions C16_ended_stream_costs_own_stream.
 Print Assumptions C16_bad_frame_costs_own_stream.
 Print Assumptions stream_out_deliver.
 Print Assumptions stream_out_fuel.
+
+(* ---- inside the whole connection handler (package M): what the inbound side delivers, and the state it ends in, is a function
+   of the inbound streams alone — the two handler halves, their states and their scripts are invisible to it — and it is served
+   first in every poll. *)
+From BS Require Import Bytes Types FramedWrite Handler ServerHandler Framed Framed_proofs Streams Streams_proofs Handler_proofs ServerHandler_proofs ConnHandler Proto Prefix Incoming Qp ProtoCodec Codec ConnHandler_proofs.
+From Coq Require Import ZArith Lia.
+Open Scope N_scope.
+
+Theorem connhandler_inbound_independent :
+  forall (encode : message -> bytes) (block_size : blk -> N) (msg : Type)
+    (parse : bytes -> N -> parse_result msg) (proc : msg -> pm_result) (st1 st2 : kstate)
+    (sc1 ss1 sc2 ss2 : list io),
+  k_dead st1 = false ->
+  k_dead st2 = false ->
+  k_in st1 = k_in st2 ->
+  inbound_outs (snd (kstep encode block_size parse proc st1 (KPoll sc1 ss1))) =
+  inbound_outs (snd (kstep encode block_size parse proc st2 (KPoll sc2 ss2))) /\
+  k_in (fst (kstep encode block_size parse proc st1 (KPoll sc1 ss1))) =
+  k_in (fst (kstep encode block_size parse proc st2 (KPoll sc2 ss2))).
+Proof. exact (@ConnHandler_proofs.connhandler_inbound_independent). Qed.
+
+Theorem connhandler_inbound_first :
+  forall (encode : message -> bytes) (block_size : blk -> N) (msg : Type)
+    (parse : bytes -> N -> parse_result msg) (proc : msg -> pm_result) (st : kstate) 
+    (sc ss : list io),
+  exists a b : list kout,
+    snd (kstep encode block_size parse proc st (KPoll sc ss)) = a ++ b /\
+    Forall is_incoming a /\ inbound_outs b = [].
+Proof. exact (@ConnHandler_proofs.connhandler_inbound_first). Qed.
+
+Print Assumptions connhandler_inbound_independent.
+Print Assumptions connhandler_inbound_first.
